@@ -5,7 +5,8 @@ import os
 
 HERE = os.path.dirname(os.path.dirname(os.path.abspath(__file__)))
 
-TECH = "deterministic simulation with fault injection: seeded search over generated operation/fault plans"
+TECH = ("deterministic simulation with fault injection: seeded search over generated operation/fault plans and "
+        "host-process states, each run in its own child process")
 
 CHECKS = {
     "C01": dict(
@@ -15,7 +16,9 @@ CHECKS = {
              "balance, the account totals and the history rows are compared with an exact-arithmetic ledger model. "
              "Sampling over histories, not proof.",
         note="Trusted: the Fraction ledger model, the QuoteBook stub, rule-1/2 float tolerances (DESIGN section 3). "
-             "Bounds: <=3 portfolios, <=4 assets, <=240 ops per run.",
+             "Bounds: <=6 portfolios, <=8 assets (now and then books of 17..260), <=240 ops per run; host-process states "
+             "(logging, time zone, warnings filter, numpy error state, decimal context, pandas options, assert stripping) "
+             "are drawn per run.",
         tech=TECH + "; exact-arithmetic ledger reference model checked after every operation"),
     "C02": dict(
         cat="exploration", ref="DESIGN.md section 4 C02",
@@ -190,8 +193,10 @@ def main():
         }],
         "checks": checks,
         "not_applicable": na,
-        "notes": "Exit codes: 0 held, 1 VIOLATION, 2 harness error (never a verdict). Two genuine defects were found "
-                 "and repaired with 'fix:' commits in /repo (known_findings.json: F1, F3).",
+        "notes": "Exit codes: 0 held, 1 VIOLATION, 2 harness error (never a verdict). Five genuine defects were found "
+                 "by the checks and repaired with 'fix:' commits in /repo (known_findings.json: F1-F5, all 'fixed'). "
+                 "Every run executes in its own forked child (REPEAT: a fresh interpreter); host-process state is part "
+                 "of every plan and of every replay file. Sensitivity: DESIGN.md section 9.4 and mutants/RESULTS.md.",
     }
     with open(os.path.join(HERE, "MANIFEST.json"), "w") as f:
         json.dump(doc, f, indent=1)
